@@ -297,6 +297,37 @@ impl Seek for Source {
     }
 }
 
+/// A source whose clones share one file position (like `&File` or `File::try_clone()` handles).
+#[derive(Clone)]
+pub struct SharedSource {
+    pub data: Rc<Vec<u8>>,
+    pub pos: Rc<std::cell::Cell<u64>>,
+}
+
+impl SharedSource {
+    pub fn new(data: Rc<Vec<u8>>) -> SharedSource {
+        SharedSource { data, pos: Rc::new(std::cell::Cell::new(0)) }
+    }
+}
+
+impl Read for SharedSource {
+    fn read(&mut self, buf: &mut [u8]) -> io::Result<usize> {
+        let start = (self.pos.get() as usize).min(self.data.len());
+        let n = buf.len().min(self.data.len() - start);
+        buf[..n].copy_from_slice(&self.data[start..start + n]);
+        self.pos.set(self.pos.get() + n as u64);
+        Ok(n)
+    }
+}
+
+impl Seek for SharedSource {
+    fn seek(&mut self, style: SeekFrom) -> io::Result<u64> {
+        let n = do_seek(self.data.len() as u64, self.pos.get(), style)?;
+        self.pos.set(n);
+        Ok(n)
+    }
+}
+
 // ---------------------------------------------------------------------------------------------
 // Chunk storage and creator
 
